@@ -232,3 +232,47 @@ theorem C14_dispatch_valve_arm (ext : Ext) (d : Games.ValveParams) (port : Optio
     ∧ moduleQuery ext (.valve d.port d.engine d.gather) port w
       = boxed .valveGame (Games.moduleQuery ext.valve d port) w :=
   ⟨rfl, rfl⟩
+
+/-! ### the theorems instantiated on concrete rows of the generated tables -/
+
+-- teamfortress2 (a `game_query_mod!` module): (b) with the port omitted
+example (ext : Ext) (w : Net) :
+    Games.mapQ Response.view
+        (generic ext ⟨27015, .valve (Valve.Engine.new 440), valveIntoExtra Valve.Gather.default⟩ none none none) w
+      = moduleQuery ext (.valve 27015 (Valve.Engine.new 440) Valve.Gather.default) none w :=
+  C14_dispatch_generic_eq_module
+    (d := ⟨"teamfortress2", "Team Fortress 2", 27015, "valve", "S:440", "ttT", true, 27015, false,
+      .valve (.source 440 none) .try_ .try_ true⟩)
+    (m := ⟨"teamfortress2", "Team Fortress 2", 27015, "valve", "S:440", "ttT", true, 27015, false,
+      .valve (.source 440 none) .try_ .try_ true⟩)
+    (by decide) (by decide) (by decide) (by decide) (by decide) (by decide) none (by decide) ext w
+
+-- ut2004 (the definition is `unrealtournament2004`, the module `ut2004`: same display name), a port given
+example (ext : Ext) (w : Net) :
+    Games.mapQ Response.view (generic ext ⟨7778, .unreal2, valveIntoExtra Valve.Gather.default⟩ (some 7777) none none) w
+      = moduleQuery ext (.unreal2 7778) (some 7777) w :=
+  C14_dispatch_generic_eq_module
+    (d := ⟨"unrealtournament2004", "Unreal Tournament 2004", 7778, "unreal2", "-", "-", true, 7778, false, .unreal2⟩)
+    (m := ⟨"ut2004", "Unreal Tournament 2004", 7778, "unreal2", "-", "-", true, 7778, false, .unreal2⟩)
+    (by decide) (by decide) (by decide) (by decide) (by decide) (by decide) (some 7777) (by decide) ext w
+
+-- savage2 (hand-written module, the arm hands the optional port on): (a) with the port omitted goes to the row's 11235,
+-- (c) for any script
+example (ext : Ext) (w : Net) :
+    generic ext ⟨11235, .proprietary .savage2, valveIntoExtra Valve.Gather.default⟩ none none none w
+      = boxed .savage2 (Savage2.query 11235) w :=
+  C14_dispatch_generic_eq_protocol
+    (d := ⟨"savage2", "Savage 2", 11235, "prop:Savage2", "-", "-", true, 11235, false, .savage2⟩)
+    (by decide) (by decide) ext none none none w
+
+example (ext : Ext) (script : List ConnScript) (faults : List Bool) :
+    ∀ e ∈ (generic ext ⟨25565, .proprietary (.minecraft (some .java)), valveIntoExtra Valve.Gather.default⟩ none
+        (some ⟨none, none, none, 3⟩) (some ⟨some [0x6D, 0x63], some 47, none, none, none⟩) (Net.init script faults)).2.log,
+      match e with
+      | .opened _ _ p _ => p = 25565
+      | .send _ p _ _ => p = 25565
+      | .recv _ _ _ => True :=
+  C14_dispatch_destination_port
+    (d := ⟨"minecraftjava", "Minecraft (java)", 25565, "prop:Minecraft(Some(Server::Java))", "-", "-", true, 25565, false,
+      .minecraft .java⟩)
+    (by decide) (by decide) ext (fun h => by cases h) none _ _ script faults
